@@ -64,14 +64,14 @@ Proof.
   - intros ->. reflexivity.
 Qed.
 
-(* zero column, DenseFloat64-style path: error; identical rows, generic path: panic *)
+(* zero column, DenseFloat64-style path: error; identical rows, generic path: the same error (HEAD, /repo 74e12ad) *)
 Lemma nan_aware_zero_column_exit :
   gj_run (NumO QcK qisz) true false 2 (all_true 2)
          (lst QcK (mkSt (qc [[0;1];[0;2]]%Z) (ident (NumK QcK) 2) (qcv [1;1]%Z))) = ErrSingular.
 Proof. vm_compute. reflexivity. Qed.
 Lemma nan_aware_identical_rows_exit :
   gj_run (NumO QcK qisz) false false 3 (all_true 3)
-         (lst QcK (mkSt (qc [[1;2;3];[4;5;6];[1;2;3]]%Z) (ident (NumK QcK) 3) (qcv [1;1;1]%Z))) = PanicSingular.
+         (lst QcK (mkSt (qc [[1;2;3];[4;5;6];[1;2;3]]%Z) (ident (NumK QcK) 3) (qcv [1;1;1]%Z))) = ErrSingular.
 Proof. vm_compute. reflexivity. Qed.
 (* regular input: Ok on the NaN-aware carrier *)
 Lemma nan_aware_regular_ok :
